@@ -107,10 +107,9 @@ func runC02(c *Ctx) {
 	// inside the nats section - kind dispatch, role check, loader and signed layout must all follow one of them
 	for _, ktop := range append([]string{}, kinds...) {
 		for _, knats := range kinds {
-			if ktop == knats {
-				continue
-			}
-			for _, ver := range []interface{}{nil, 1, 2} {
+			// (ktop == knats included: the same kind twice, with a version in the nats section that need not be
+			// the one a top-level kind implies)
+			for _, ver := range []interface{}{nil, 0, 1, 2} {
 				for _, layout := range []string{"v1", "v2"} {
 					for _, ir := range []string{"operator", "account", "server", "user"} {
 						s := kr.by[ir]
@@ -457,6 +456,30 @@ func runC01(c *Ctx) {
 		s := kr.by[signerFor[kind]]
 		all["forged_v2_"+kind] = forge(hdrV2, payload(kind, "nats", 2, s.pub, s.pub), "v2", s).Token
 		all["forged_v1_"+kind] = forge(hdrV1, payload(kind, "top", nil, s.pub, s.pub), "v1", s).Token
+	}
+	// one kind named twice - at the top level (version-1 style) AND in the nats section - with a version in the nats
+	// section that need not be the one the top-level kind implies: whichever version the returned claims report,
+	// the signature must have been checked over that version's text
+	for _, kind := range kindNames {
+		s := kr.by[signerFor[kind]]
+		for _, ver := range []interface{}{nil, 0, 1, 2} {
+			for _, layout := range []string{"v1", "v2"} {
+				for _, hdr := range []string{hdrV1, hdrV2} {
+					m := map[string]interface{}{"iss": s.pub, "sub": s.pub, "iat": 1700000000, "type": kind}
+					nats := map[string]interface{}{"type": kind}
+					if ver != nil {
+						nats["version"] = ver
+					}
+					m["nats"] = nats
+					pj, _ := json.Marshal(m)
+					ft := forge(hdr, string(pj), layout, s)
+					ft.Note = fmt.Sprintf("kind %s named at both levels, nats version %v, signed %s", kind, ver, layout)
+					_, o := processToken(c, w, ft)
+					distinct[fmt.Sprint("both", kind, ver, layout, hdr == hdrV1, o.Accepted)] = true
+					c.count("kind_at_both_levels")
+				}
+			}
+		}
 	}
 	names := make([]string, 0, len(all))
 	for k := range all {
